@@ -26,6 +26,7 @@ mod c32;
 mod c33;
 mod c34;
 mod c03;
+mod c03decl;
 mod c30;
 mod c31;
 mod gens;
@@ -77,6 +78,7 @@ const EXECS: &[Exec] = &[
     c31::exec,
     c34::exec,
     c03::exec,
+    c03decl::exec,
 ];
 
 /// Run one case (`op` + inputs) on the implementation: the first module that recognises the op answers.
